@@ -354,6 +354,21 @@ class Exec:
                         # does not fit the code (undecided), it must not
                         # see a stale value
                         st.env.pop(c_, None)
+            elif len(an) > len(cn) and an[:len(cn)] == cn:
+                # parameters added at the end with default values (the
+                # contract does not know them): the function is verified
+                # for the calls that do not pass them
+                from . import builtins as bi
+                a_ = fi.node.args
+                nd = len(a_.defaults)
+                for i in range(len(cn), len(an)):
+                    di = i - (len(an) - nd)
+                    if di < 0:
+                        raise Unsupported(
+                            'parameter %s of %s is not in the contract and '
+                            'has no default' % (an[i], qual))
+                    st.env[an[i]] = bi.default_value(self, st, fi,
+                                                     a_.defaults[di])
         st.env['$args'] = dict(args)
         st.ghost['$diag'] = 0
         self.canary(st, 'pre', fi.lineno)
